@@ -637,8 +637,8 @@ func (d *discharger) loaderChecksFanout(fn *ssa.Function) (bool, string) {
 			continue
 		}
 		v := ret.Results[0]
-		// cached value: a map lookup result
-		if isMapLookupResult(v) {
+		// cached value: a map lookup result, directly or through a repository getter whose every return is one
+		if isMapLookupResult(v) || c.fromCacheGetter(v) {
 			continue
 		}
 		nret++
@@ -651,6 +651,14 @@ func (d *discharger) loaderChecksFanout(fn *ssa.Function) (bool, string) {
 			if mu, ok := ins.(*ssa.MapUpdate); ok {
 				if !core.GuardedBy(mu.Block(), isFanoutCmp) {
 					return false, fmt.Sprintf("%s caches a child at %s before comparing fanouts", core.FuncName(fn), c.P.Pos(mu.Pos()))
+				}
+			}
+			// a repository setter that stores its argument into a map
+			if call, ok := ins.(*ssa.Call); ok {
+				if f := call.Call.StaticCallee(); f != nil && c.isCacheSetter(f) {
+					if !core.GuardedBy(call.Block(), isFanoutCmp) {
+						return false, fmt.Sprintf("%s caches a child through %s at %s before comparing fanouts", core.FuncName(fn), f.Name(), c.P.Pos(call.Pos()))
+					}
 				}
 			}
 		}
@@ -1489,4 +1497,50 @@ func (c *Ctx) bceCrossCheck(reportPath string, sites []panicSite) {
 	}
 	r.Extra["bce_cross_check"] = map[string]any{"compiler_reported_lines": n, "matched_inventory_site": nsite, "inlined_repository_function_with_site": ninl, "inlined_dependency_code": ndep, "dependency_callees": depCallees}
 	r.Floor("R13.3/bce-lines", n, 20)
+}
+
+// fromCacheGetter: v is result 0 of a repository function all of whose returns yield a map lookup result.
+func (c *Ctx) fromCacheGetter(v ssa.Value) bool {
+	ex, ok := v.(*ssa.Extract)
+	if !ok || ex.Index != 0 {
+		return false
+	}
+	call, ok := ex.Tuple.(*ssa.Call)
+	if !ok {
+		return false
+	}
+	f := call.Call.StaticCallee()
+	if f == nil || len(f.Blocks) == 0 {
+		return false
+	}
+	if _, isRepo := c.P.PkgOf(f); !isRepo || len(core.FetchSites(f)) > 0 {
+		return false
+	}
+	rets := core.Returns(f)
+	if len(rets) == 0 {
+		return false
+	}
+	for _, ret := range rets {
+		if !isMapLookupResult(core.ResolvedResults(ret)[0]) {
+			return false
+		}
+	}
+	return true
+}
+
+// isCacheSetter: a repository function that stores one of its parameters into a map.
+func (c *Ctx) isCacheSetter(f *ssa.Function) bool {
+	if _, isRepo := c.P.PkgOf(f); !isRepo {
+		return false
+	}
+	for _, b := range f.Blocks {
+		for _, ins := range b.Instrs {
+			if mu, ok := ins.(*ssa.MapUpdate); ok {
+				if _, isParam := mu.Value.(*ssa.Parameter); isParam {
+					return true
+				}
+			}
+		}
+	}
+	return false
 }
